@@ -451,10 +451,10 @@ Section CacheProofs.
                        mkC C (c_disk C s) (aremove (c_entries C s) (snd it)) h' (c_mem C s - e_bytes C e) (c_max C s)).
           { unfold unload_, s1. cbn [c_entries c_disk c_heap c_mem c_max]. rewrite Ea. reflexivity. }
           rewrite Eu.
-          assert (Hnd_all : NoDup (hnames ((h1 ++ h2) ++ wr ++ [it]))).
-          { eapply Permutation_NoDup; [exact Hperm|]. rewrite <- Eh. exact (mid_hnd _ _ _ M). }
+          assert (Hnd_all : NoDup (hnames (h' ++ wr ++ [it]))).
+          { eapply Permutation_NoDup; [exact Hperm|]. exact (mid_hnd _ _ _ M). }
           assert (Hnd' : NoDup (hnames (h' ++ wr)) /\ ~ In (snd it) (hnames (h' ++ wr))).
-          { rewrite Eh'. rewrite app_assoc, hnames_app in Hnd_all. simpl in Hnd_all.
+          { rewrite app_assoc, hnames_app in Hnd_all. simpl in Hnd_all.
             apply NoDup_remove in Hnd_all. rewrite app_nil_r in Hnd_all. exact Hnd_all. }
           assert (Hmem_in : forall m, In m (hnames (c_heap C s ++ wr)) <-> (m = snd it \/ In m (hnames (h' ++ wr)))).
           { intros m. split; intros H.
@@ -506,7 +506,7 @@ Section CacheProofs.
         destruct M as [M1 M2 M3 M4 M5 M6 M7 M8 M9 M10 M11].
         constructor; cbn [c_entries c_heap c_mem c_max c_disk]; rewrite ?app_nil_r; try assumption. intros x [].
     - eexists. split; [reflexivity|]. cbn [c_mem c_max c_disk c_entries c_heap].
-      split; [|split; [apply Z.gtb_ltb in Egt; apply Z.ltb_ge in Egt; lia | split; reflexivity]].
+      split; [|split; [rewrite Z.gtb_ltb in Egt; apply Z.ltb_ge in Egt; lia | split; reflexivity]].
       destruct M as [M1 M2 M3 M4 M5 M6 M7 M8 M9 M10 M11].
       constructor; cbn [c_entries c_heap c_mem c_max c_disk]; rewrite ?app_nil_r; try assumption. intros x [].
   Qed.
